@@ -118,6 +118,10 @@ def lake_build(targets):
 # ----------------------------------------------------------------------------- servers
 
 WALL_STALL = 900
+# hangs and aborts confirmed in this whole run, over all batches: after a dozen the point is made (each costs seconds of
+# watchdog time); later requests of every batch are answered `skipped`
+TOTAL_BAD = 0
+MAX_TOTAL_BAD = 12
 _TICK = os.sysconf('SC_CLK_TCK')
 
 
@@ -187,8 +191,9 @@ def serve(cmd, requests, stall_s=20, tag='srv'):
     todo = list(requests)
     n = 0
     bad = 0
+    global TOTAL_BAD
     while todo:
-        if bad >= MAX_BAD:
+        if bad >= MAX_BAD or TOTAL_BAD >= MAX_TOTAL_BAD:
             # enough hangs / aborts to establish the point; do not spend minutes on more
             out += ['skipped'] * len(todo)
             break
@@ -217,6 +222,7 @@ def serve(cmd, requests, stall_s=20, tag='srv'):
             out.append(r1[0])          # answered normally on its own: not a hang / crash of this request
         else:
             bad += 1
+            TOTAL_BAD += 1
             out.append('hang' if st1 == 'hang' else 'crash')       # died (abort / stack overflow / OOM) or exited early
         todo = todo[1:]
     return out
